@@ -51,7 +51,7 @@ def explore(tier, seed):
         # every third schema forbids introspection at schema level (per-request decision taken in a schema-level hook);
         # every other one coerces sibling fields one by one (an introspection field may then resolve late in its request)
         if si % 3 == 0: mdl["sdl_extra"].append("extend schema @nonIntrospectable")
-        cfg = {"coerce_parent_concurrently": False, "parent_concurrently": False} if si % 2 == 1 else None
+        cfg = {"coerce_parent_concurrently": False, "parent_concurrently": False} if (si % 2 == 1 or si % 3 == 0) else None
         b = loop.run_until_complete(er.build_engine(mdl, renv, cfg=cfg, directives={"note": Note()}))
         fresh = loop.run_until_complete(er.build_engine(mdl, renv, cfg=cfg, directives={"note": Note()}))      # never sees concurrent traffic
         b.scribble = fresh.scribble = si % 2 == 0       # resolvers that modify their own arguments in place
@@ -70,12 +70,14 @@ def explore(tier, seed):
                     pool.append((q, ops[k2][1], variables))
         pool += [(INTROSPECTION, None, None), ("{ __typename ", None, None), ("{ nope }", None, None), (pool[0][0], "Unknown", None)]
         # an introspection field placed AFTER awaited resolvers of the same request
+        late = []
         gated = [f for f in sg.query["fields"] if f"Query.{f['name']}" in renv["resolvers"] and renv["resolvers"][f"Query.{f['name']}"]["k"] != "default"
                  and not any(("nn" in a["type"]) and not a.get("default") for a in f["args"]) and f["name"] not in sg.echo]
         for f in gated[:2]:
             from gen import base as _b
             sub = " { __typename }" if _b(f["type"]) not in sg.leaf_names else ""
             pool.append((f"{{ {f['name']}{sub} s1: __schema {{ queryType {{ name }} }} t1: __type(name: \"Query\") {{ name }} }}", None, None))
+            late.append(len(pool) - 1)
         def solo(engine_b, req, idx=0, hide=False):
             hub = MultiHub(1)
             engine_b.gate = hub.gate
@@ -92,6 +94,7 @@ def explore(tier, seed):
             if time.time() - t0 > (110 if tier == "quick" else 1500): break
             n = rng.randint(2, 5)
             idxs = [rng.randrange(len(pool)) for _ in range(n)]
+            if late and rng.random() < 0.4: idxs[rng.randrange(1, n)] = rng.choice(late)      # a late introspection field, started after another request
             hub = MultiHub(n)
             b.gate = hub.gate
             b.calls.clear()
